@@ -39,8 +39,9 @@ func (c *Case) CrashAttrs() mon.Attrs {
 
 func Spec() *mon.Spec {
 	return &mon.Spec{
-		ID:    "C17",
-		Level: "exploration",
+		ID:      "C17",
+		RuleAdd: "Later additions (rounds 4-17): reply bytes owed before Shutdown returns; listener left open; Shutdown before Serve; restart (second Serve on the same value, a first Shutdown that times out); slow accept callbacks and cancellation inside them; callbacks that call Addr(); close callbacks that take 1-3 ms; the one-slot admission limiter (exact counts 1, 2, 1); the drain scenario (blocked context-respecting handler, a client dialling during the wait, two overlapping Shutdown calls); listener hand-over between two serve calls; real TCP listener cases.",
+		Level:   "exploration",
 		Rule: "built with -race and the verif hooks; every case runs in a child process (a crash identifies its case). All 16 set/unset combinations of OnServeFunc/OnErrorFunc/OnAcceptConnFunc/OnCloseConnFunc x PRNG schedules of K<=12 clients {connect, get rejected by the accept callback, send 1..3 lock-step requests, idle, disconnect or stay} x handler duration {0, yield, 1-5 ms} x terminal action {Shutdown at a PRNG logical point, Shutdown while a handler is running, Shutdown right after a handler returned (reply being written, with a transport-level delay before the write), context cancel, both} x PRNG delays at the four verif yield points (off in one third of the cases); server.Server.Serve on an in-memory listener whose connections record every server-side Read/Write/Close, all stamped from one logical clock shared with the callbacks and the handler. " +
 			"Oracles: no crash, no race report; accept callback count within [A+1-S, A+1-C] (A = connections accepted and tracked before, exact because the accept loop is sequential; S = of those, server-side Close seen before the callback; C = close callbacks begun before Accept returned); rejected connection: server-side Close and client EOF; close callback exactly once per accepted connection, never for rejected ones; Shutdown()==nil => Serve returned ErrServerClosed, new dial fails, every connection closed by the server, every request whose handler started before Shutdown was called got its complete reply (started between call and return: own class inflight-toctou); cancel => Serve returns without needing another connection (state witness: returned only after a kick connection); at quiescence VerifConnAccounting()==(0,0). distinct key=(mask, terminal, yield, schedule hash).",
 		Assumptions:  []string{"waits (2-3 s) only bound how long the monitor looks for an event the oracle requires; a missing event is reported with the state witness (what was and was not observed), never from the clock alone"},
